@@ -128,7 +128,7 @@ const (
 )
 
 func InitialFiles() map[string]string {
-	return map[string]string{"t1.csv": T1Bytes, "t2.csv": T2Bytes, "l.ltsv": LBytes}
+	return map[string]string{"t1.csv": T1Bytes, "t2.csv": T2Bytes, "l.ltsv": LBytes, "k.csv": KBytes}
 }
 
 func tab(header []string, rows ...[]string) Table {
@@ -143,8 +143,16 @@ func tab(header []string, rows ...[]string) Table {
 	return t
 }
 
+// LockTimeoutCode is the exit code of "lock wait timeout period exceeded" (ReturnCodeContextDone).
+const LockTimeoutCode = 8
+
+// KBytes: a table another process holds locked while the procedure runs (terminator LK); never changed.
+const KBytes = "k,v\n1,x\n"
+
 func NewState() *State {
-	st := &State{Files: map[string]*File{}, Order: []string{"t1", "t2", "n", "l", "m"}, Scopes: []Scope{{}}}
+	st := &State{Files: map[string]*File{}, Order: []string{"t1", "t2", "n", "l", "m", "k"}, Scopes: []Scope{{}}}
+	kt := tab([]string{"k", "v"}, []string{"1", "x"})
+	st.Files["k"] = &File{Tab: "k", Name: "k.csv", Format: "CSV", DiskExists: true, Disk: kt, Accept: []string{KBytes}, WorkExists: true, Work: kt.Clone()}
 	t1 := tab([]string{"a", "b"}, []string{"1", "x"}, []string{"2", "y"})
 	t2 := tab([]string{"a", "c"}, []string{"1", "p"}, []string{"3", "q"})
 	l := tab([]string{"k", "v"}, []string{"1", "x"}, []string{"2", "y"})
@@ -260,7 +268,9 @@ type Node struct {
 var Alphabet = []string{"I1", "U1", "D1", "R1", "U2", "U2z", "CN", "CNS", "IN", "A1", "DV", "IV", "UV", "CM", "RB", "PA", "P2", "XL"}
 
 // Terminators (END = the statement list simply ends).
-var Terminators = []string{"END", "E1", "E2", "EX0", "EX1", "TE"}
+// LK: a data-changing statement on a table that another process holds locked for the whole run: the procedure
+// ends by the lock-wait error.
+var Terminators = []string{"END", "E1", "E2", "EX0", "EX1", "TE", "LK"}
 
 var sqlOf = map[string]string{
 	"I1":  "INSERT INTO t1 (a, b) VALUES (3, 'i');",
@@ -283,6 +293,7 @@ var sqlOf = map[string]string{
 	"S2F": "SELECT * FROM t2 FOR UPDATE;",
 	"D2z": "DELETE FROM t2 WHERE a = 99;",
 	"AV":  "ALTER TABLE v ADD x;",
+	"RV":  "ALTER TABLE v RENAME w TO ww;",
 	"CLX": "CREATE TABLE `m.ltsv` (k, v) AS SELECT 1, 'a\\tb';",
 	// terminators
 	"E1":  "UPDATE t1 SET b = 1/0;",
@@ -290,6 +301,7 @@ var sqlOf = map[string]string{
 	"EX0": "EXIT;",
 	"EX1": "EXIT 1;",
 	"TE":  "TRIGGER ERROR;",
+	"LK":  "SET @@WAIT_TIMEOUT TO 0.05; UPDATE k SET v = 'z';",
 	"END": "",
 }
 
@@ -610,6 +622,13 @@ func (r *runner) stmt(n *Node) *stop {
 			return natural(n.Op, 1, 16)
 		}
 		w := v.Cur.col("w")
+		if w < 0 {
+			// the column was renamed; csvq resolves the SET field per record, so an empty table raises nothing
+			if len(v.Cur.Rows) == 0 {
+				break
+			}
+			return natural(n.Op, 1)
+		}
 		for _, row := range v.Cur.Rows {
 			row[w] = S("b")
 			v.Dirty = true
@@ -626,6 +645,19 @@ func (r *runner) stmt(n *Node) *stop {
 		for i := range v.Cur.Rows {
 			v.Cur.Rows[i] = append(v.Cur.Rows[i], Nul())
 		}
+		v.Dirty = true
+	case "RV":
+		// the number of columns stays the same: only the header distinguishes the two states
+		v := st.temp("v")
+		if v == nil {
+			return natural(n.Op, 1, 16)
+		}
+		w := v.Cur.col("w")
+		if w < 0 {
+			return natural(n.Op, 1)
+		}
+		v.Cur.Header = append([]string(nil), v.Cur.Header...)
+		v.Cur.Header[w] = "ww"
 		v.Dirty = true
 	case "CM":
 		if cause, ok := st.commit(); !ok {
@@ -684,6 +716,8 @@ func (r *runner) stmt(n *Node) *stop {
 		return &stop{kind: "exit", cause: "EX1", codes: []int{1}}
 	case "TE":
 		return &stop{kind: "error", cause: "TE", codes: []int{64}}
+	case "LK":
+		return &stop{kind: "error", cause: "LK", codes: []int{LockTimeoutCode}}
 	default:
 		panic("c01m: unknown op " + n.Op)
 	}
